@@ -348,3 +348,115 @@ func init() {
 		},
 	})
 }
+
+// contextFieldPaths: every field path of Context that a request can observe (the writer's fields
+// spelled out), minus the request-invariant router back-pointer.
+func contextFieldPaths(w *World) []string {
+	var all []string
+	for _, fv := range w.StructFields("rux", "Context") {
+		if named, ok := fv.Type().(*types.Named); ok && named.Obj().Name() == "responseWriter" {
+			for _, sub := range w.StructFields("rux", "responseWriter") {
+				all = append(all, fv.Name()+"."+sub.Name())
+			}
+			continue
+		}
+		if fv.Name() == "router" {
+			continue
+		}
+		all = append(all, fv.Name())
+	}
+	sort.Strings(all)
+	return all
+}
+
+// preDispatchAssign: the field paths of the context value cv (a value of function f) that are
+// assigned on every path before f hands cv on towards the dispatcher, counting the stores of f,
+// the module methods f calls on cv or on the address of one of its fields (definiteAssign), and —
+// recursively — what the function cv is handed to does before it dispatches. It also returns the
+// hand-over call of f. nil map: f does not hand cv towards the dispatcher.
+func preDispatchAssign(w *World, f *ssa.Function, cv ssa.Value, depth int) (map[string]bool, ssa.Instruction) {
+	if depth > 4 {
+		return nil, nil
+	}
+	disp := w.Dispatcher()
+	cg := w.BuildCG()
+	root := unwrapAddr(cv).Base
+	rooted := func(addr ssa.Value) (string, bool) {
+		acc := unwrapAddr(addr)
+		if acc.Base != root || acc.Elem {
+			return "", false
+		}
+		var names []string
+		for _, fv := range acc.Fields {
+			if fv == nil {
+				return "", false
+			}
+			names = append(names, fv.Name())
+		}
+		return strings.Join(names, "."), true
+	}
+	var result map[string]bool
+	var handOver ssa.Instruction
+	eachInstr(f, func(in ssa.Instruction) {
+		d, ok := in.(*ssa.Call)
+		if !ok {
+			return
+		}
+		sc := staticCallee(d)
+		if sc == nil || !w.InModule(sc) || !(sc == disp || cg.Reach(sc)[disp]) {
+			return
+		}
+		k := -1
+		for i, a := range d.Call.Args {
+			if pth, isRooted := rooted(a); isRooted && pth == "" {
+				k = i
+			}
+		}
+		if k < 0 {
+			return
+		}
+		set := map[string]bool{}
+		eachInstr(f, func(x ssa.Instruction) {
+			if x == in || !dominates(x, in) {
+				return
+			}
+			switch y := x.(type) {
+			case *ssa.Store:
+				if _, isFA := y.Addr.(*ssa.FieldAddr); isFA {
+					if pth, ok := rooted(y.Addr); ok && pth != "" {
+						set[pth] = true
+					}
+				}
+			case *ssa.Call:
+				c2 := staticCallee(y)
+				if c2 == nil || !w.InModule(c2) || c2.Signature.Recv() == nil || len(y.Call.Args) == 0 {
+					return
+				}
+				if pth, ok := rooted(y.Call.Args[0]); ok {
+					for sp := range definiteAssign(w, c2, 0) {
+						if pth != "" {
+							sp = pth + "." + sp
+						}
+						set[sp] = true
+					}
+				}
+			}
+		})
+		if sc != disp && k < len(sc.Params) {
+			sub, _ := preDispatchAssign(w, sc, sc.Params[k], depth+1)
+			for pth := range sub {
+				set[pth] = true
+			}
+		}
+		if result == nil {
+			result, handOver = set, in
+		} else {
+			for pth := range result {
+				if !set[pth] {
+					delete(result, pth)
+				}
+			}
+		}
+	})
+	return result, handOver
+}
